@@ -129,8 +129,18 @@ impl<V: JwsVerifier> SdJwtCredentialValidator<V> {
       identity_verification::jose::error::Error::InvalidClaim("sd-jwt claims could not be deserialized"),
     ))?;
     let decoded: String = Value::Object(self.1.decode(obj, disclosures).map_err(|e| {
-      let err_str = format!("sd-jwt claims decoding failed, {}", e);
-      let err: &'static str = Box::leak(err_str.into_boxed_str());
+      // The text of `e` embeds the offending disclosure or digest, i.e. data of arbitrary size chosen by the presenter:
+      // it must not be turned into a `&'static str` by leaking it. Report the kind of failure instead.
+      use sd_jwt_payload::Error as SdError;
+      let err: &'static str = match e {
+        SdError::InvalidDisclosure(_) => "sd-jwt claims decoding failed, invalid disclosure",
+        SdError::MissingHasher(_) => "sd-jwt claims decoding failed, no hasher for the hashing algorithm",
+        SdError::DataTypeMismatch(_) => "sd-jwt claims decoding failed, data type is not expected",
+        SdError::ClaimCollisionError(_) => "sd-jwt claims decoding failed, claim of disclosure already exists",
+        SdError::DuplicateDigestError(_) => "sd-jwt claims decoding failed, a digest appears multiple times",
+        SdError::UnusedDisclosures(_) => "sd-jwt claims decoding failed, the validation ended with unused disclosure(s)",
+        _ => "sd-jwt claims decoding failed",
+      };
       JwtValidationError::JwsDecodingError(identity_verification::jose::error::Error::InvalidClaim(err))
     })?)
     .to_string();
